@@ -183,6 +183,59 @@ let gen_case ?(with_probes = true) ?twin ?(tail = fun (_ : string) (_ : view) (_
   pr obs ("E " ^ id);
   List.rev !kinds @ extra_kinds
 
+(* ---- exhaustive enumeration (thorough tier of C01): every root shape with rank <= maxrank and extents 0..maxext,
+   every operation sequence of length <= maxlen whose arguments range over their whole in-domain set ---- *)
+let all_ops (v : view) : op list =
+  let r = rank v in
+  let (f, l) = let (a, b) = v_extension v in (i a, i b) in
+  let n = i (v_size v) in
+  let rng a b = if b < a then [] else List.init (b - a + 1) (fun k -> a + k) in
+  let slices = List.concat_map (fun a -> List.map (fun b -> (a, b)) (rng a l)) (rng f l) in
+  let cands =
+    (if r >= 2 then List.map (fun k -> OIndex (z k)) (rng f (l - 1)) else [])
+    @ List.map (fun (a, b) -> OSliced (z a, z b)) slices
+    @ List.concat_map (fun (a, b) -> if b > a then List.map (fun s -> OSlicedS (z a, z b, z s)) (divisors (b - a)) else []) slices
+    @ (if n > 0 then List.map (fun s -> OStrided (z s)) (divisors n) else [])
+    @ List.map (fun k -> ODropped (z k)) (rng 0 n)
+    @ (if r = 1 then List.map (fun k -> OTaked (z k)) (rng 0 n) else [])
+    @ [ ORotated; OUnrotated; OReversed ]
+    @ (if r >= 2 then [ OTransposed; ODiagonal; OFlatted ] else [])
+    @ (if n > 0 then List.map (fun k -> OPartitioned (z k)) (divisors n) @ List.map (fun k -> OChunked (z k)) (divisors n) @ [ OHalved ] else [])
+    @ (let parg_choices (f, l) = (List.map (fun k -> PIdx (z k)) (rng f (l - 1))) @ [ PAll ] @ (if l - f >= 2 then [ PRange (z f, z (l - 1)); PRange (z (f + 1), z l) ] else []) in
+       let exts = List.map (fun (a, b) -> (i a, i b)) (l_extensions v.lay) in
+       match exts with
+       | e0 :: e1 :: _ when r >= 2 ->
+           List.concat_map (fun a0 -> List.map (fun a1 -> OParen [ a0; a1 ]) (parg_choices e1)) (parg_choices e0)
+       | e0 :: _ -> List.map (fun a0 -> OParen [ a0 ]) (parg_choices e0)
+       | [] -> []) in
+  List.filter (fun o -> dom_op o v && (let r' = rank (exec_op o v) in r' >= 1 && r' <= 5)
+                        && (match o with OParen args -> List.length (List.filter (function PIdx _ -> true | _ -> false) args) < r | _ -> true)) cands
+
+let exhaustive (maxrank : int) (maxext : int) (maxlen : int) (prog : Buffer.t) (obs : Buffer.t) : int =
+  let count = ref 0 in
+  let pr b s = Buffer.add_string b s; Buffer.add_char b '\n' in
+  let rec shapes r = if r = 0 then [ [] ] else List.concat_map (fun t -> List.init (maxext + 1) (fun n -> n :: t)) (shapes (r - 1)) in
+  let emit exts ops =
+    incr count;
+    let id = Printf.sprintf "x%d" !count in
+    pr prog ("case " ^ id);
+    pr prog (Printf.sprintf "root %d %s" (List.length exts) (join " " (fun n -> Printf.sprintf "0 %d" n) exts));
+    let v0 = root_view (List.map (fun n -> (z 0, z n)) exts) in
+    let nroot = i (l_num_elements v0.lay) in
+    pr obs (shape_line id 0 v0);
+    let v = ref v0 and step = ref 0 in
+    List.iter (fun o -> incr step; v := exec_op o !v; pr prog ("op " ^ op_text o); pr obs (shape_line id !step !v)) ops;
+    List.iter (fun idx -> pr prog ("probe " ^ join " " string_of_int idx); pr obs (probe_line id !step !v nroot idx)) (probes !v);
+    pr prog "end";
+    pr obs ("E " ^ id) in
+  let rec go exts v ops len =
+    emit exts (List.rev ops);
+    if len < maxlen then List.iter (fun o -> go exts (exec_op o v) (o :: ops) (len + 1)) (all_ops v) in
+  for r = 1 to maxrank do
+    List.iter (fun exts -> go exts (root_view (List.map (fun n -> (z 0, z n)) exts)) [] 0) (shapes r)
+  done;
+  !count
+
 (* ---- running a given program text (replay, shrinking, corpus) ---- *)
 let parse_op (toks : string list) : op =
   let n s = z (int_of_string s) in
